@@ -1,7 +1,7 @@
 (* RoundtripFacts.v -- C03: the fixpoint half of the property is a corollary of the re-parse half
    (abstract), and the re-parse half for item lists follows from the string round trip (proved) and
    three named hypotheses about the parts other builders own / nobody models.                     *)
-From CssV Require Import Base Regex Tokenizer Quote Gen.Quote QuoteFacts QuoteStrFacts Roundtrip.
+From CssV Require Import Base Regex Tokenizer Quote Gen.Quote QuoteFacts QuoteStrFacts Upto Skeleton SkeletonFacts Roundtrip.
 
 (* ------------------------------------------------------------------ abstract: fixpoint from round trip *)
 Section Abstract.
@@ -69,3 +69,40 @@ Section Items.
     Forall (wf_item sepok) l -> option_map ser_items (parse_items (ser_items l)) = Some (ser_items l).
   Proof. intros l Hw. apply fixpoint_of_roundtrip_lemma. apply reparse_equal_items_lemma. exact Hw. Qed.
 End Items.
+
+(* ------------------------------------------------------------------ sheet layout round trip (token level) *)
+Lemma disp_skips cls l g : skips cls l -> disp cls (l ++ g) 0 = disp cls g 0.
+Proof.
+  induction 1 as [|t l Ht Hl IH]; [reflexivity|]. unfold disp in *. cbn [app disp_gen]. rewrite Ht. exact IH.
+Qed.
+
+Lemma disp_piece cls p g : wf_piece cls p -> disp cls (ptoks p ++ g) 0 = pitem p :: disp cls g 0.
+Proof.
+  destruct p as [k run|t]; cbn [wf_piece ptoks pitem].
+  - intros (t & r & -> & Hc & Hj). apply disp_stmt; assumption.
+  - intros Hc. unfold disp. cbn [app disp_gen]. rewrite Hc. reflexivity.
+Qed.
+
+(* the rule list written by the serializer is split again at exactly the same places, whatever separator of skipped
+   tokens is used (none, blanks, newlines, indentation) and whatever skipped tokens surround it *)
+Theorem layout_roundtrip_lemma : forall cls sep before after ps,
+  skips cls sep -> skips cls before -> skips cls after -> Forall (wf_piece cls) ps ->
+  disp cls (before ++ join_toks sep (map ptoks ps) ++ after) 0 = map pitem ps.
+Proof.
+  intros cls sep before after ps Hs Hb Ha Hw. rewrite (disp_skips _ _ _ Hb).
+  induction Hw as [|p ps Hp Hw IH].
+  - cbn [map join_toks app]. rewrite <- (app_nil_r after), (disp_skips _ _ _ Ha). reflexivity.
+  - destruct ps as [|q ps].
+    + cbn [map join_toks]. rewrite (disp_piece _ _ _ Hp). cbn [map]. f_equal.
+      rewrite <- (app_nil_r after), (disp_skips _ _ _ Ha). reflexivity.
+    + change (join_toks sep (map ptoks (p :: q :: ps))) with (ptoks p ++ sep ++ join_toks sep (map ptoks (q :: ps))).
+      rewrite <- !app_assoc, (disp_piece _ _ _ Hp). cbn [map]. f_equal.
+      rewrite (disp_skips _ _ _ Hs). exact IH.
+Qed.
+
+(* white space tokens (what a lineSeparator / indentation is tokenized to) and EOF are skipped by the sheet loop and by
+   the @media loop *)
+Lemma S_skipped t : tyis t "S" = true -> cls_sheet t = CSkip /\ cls_media t = CSkip.
+Proof. intros H. unfold cls_sheet, cls_media. rewrite H. split; reflexivity. Qed.
+Lemma EOF_skipped t : tyis t "EOF" = true -> cls_sheet t = CSkip /\ cls_media t = CSkip.
+Proof. intros H. unfold cls_sheet, cls_media. rewrite H, !orb_true_r. split; reflexivity. Qed.
